@@ -48,6 +48,33 @@ def _translated(ctx):
         ctx.coq_file(os.path.join(C.COQ, "genproofs", proofs), extra_q=[(ctx.gen_dir, "PqGen")])
 
 
+def _gsx(x):
+    """Python value (as sent to / parsed from pqref) -> Gallina term of type Sx.sx"""
+    if isinstance(x, bool):
+        return "SZ %d" % int(x)
+    if isinstance(x, int):
+        return "SZ (%d)" % x
+    if isinstance(x, str):
+        x = x.encode("utf-8")
+    if isinstance(x, (bytes, bytearray)):
+        return "SB [%s]" % "; ".join("%d" % b for b in x)
+    if x is None:
+        return "SL []"
+    return "SL [%s]" % "; ".join(_gsx(e) for e in x)
+
+
+def _extract_agrees(ctx, pairs):
+    """extraction and kernel evaluation agree: for a sample of the commands pqref answered, `Cmd.run input = output` is
+    proved by vm_compute inside coqc (DESIGN 3.2)"""
+    path = os.path.join(ctx.gen_dir, "ExtractAgrees.v")
+    with open(path, "w") as f:
+        f.write("From Coq Require Import NArith ZArith List.\nFrom Pq Require Import Extract.Sx Extract.Cmd.\nImport ListNotations.\n"
+                "Open Scope Z_scope.\nOpen Scope N_scope.\n")
+        for k, (cmd, out) in enumerate(pairs):
+            f.write("Example extract_agrees_%d : Cmd.run (%s) = (%s).\nProof. vm_compute. reflexivity. Qed.\n" % (k, _gsx(list(cmd)), _gsx(out)))
+    ctx.coq_file(path, extra_q=[(ctx.gen_dir, "PqGen")])
+
+
 def _sy(x):
     return [(_sy(e) if isinstance(e, list) else (bytes(e).decode() if isinstance(e, (bytes, bytearray)) else e)) for e in x]
 
@@ -90,6 +117,34 @@ def _slice_lattice(ctx, pq):
             impl = ["fail", "IndexError"]
         ctx.correspondence("py_pick ~ CPython list indexing", {"len": ln, "i": i}, _sy(mo), impl)
     ctx.evaluations += len(cases) + len(picks)
+    # the translator prelude's numpy idioms against numpy itself: v[lo:hi] (clamping) and v[lo:hi][:] = xs (length check)
+    import numpy as np
+    nps = [(ln, lo, hi) for ln in range(0, 7) for lo in range(-9, 10) for hi in range(-9, 10)]
+    outs = pq.batch([("np_slice", ln, lo, hi) for ln, lo, hi in nps])
+    for (ln, lo, hi), mo in zip(nps, outs):
+        v = np.arange(ln)[lo:hi]
+        impl = [int(v[0]) if len(v) else None, len(v)]
+        mo = [mo[0] if mo[1] else None, mo[1]]
+        ctx.correspondence("PyPrelude.np_slice ~ numpy basic slicing", {"len": ln, "lo": lo, "hi": hi}, mo, impl)
+    ws = []
+    for ln in range(0, 6):
+        for lo in range(-2, 7):
+            for hi in range(lo - 1, 8):
+                for k in (0, 2, 3, max(0, min(hi, ln) - max(lo, 0))):
+                    ws.append((ln, lo, hi, k))
+    # (a length-1 source is broadcast by numpy into a target of any length; the prelude refuses every length mismatch -
+    #  stated there; the reader never relies on that broadcast on the modelled path, so those cases are left out)
+    ws = sorted(set(w for w in ws if not (w[3] == 1 and len(range(w[0])[w[1]:w[2]]) != 1)))
+    outs = pq.batch([("write_slice", lo, hi, [100 + j for j in range(k)], [[] if j % 2 else [j] for j in range(ln)]) for ln, lo, hi, k in ws])
+    for (ln, lo, hi, k), mo in zip(ws, outs):
+        arr = np.array([-1 if j % 2 else j for j in range(ln)], dtype="int64")
+        try:
+            arr[lo:hi][:] = np.array([100 + j for j in range(k)], dtype="int64")
+            impl = ["ok", [[] if x == -1 else [int(x)] for x in arr]]
+        except ValueError:
+            impl = ["fail", "ShapeError"]
+        ctx.correspondence("PyPrelude.write_slice ~ numpy slice assignment", {"len": ln, "lo": lo, "hi": hi, "nvalues": k}, _sy(mo), impl)
+    ctx.evaluations += len(nps) + len(ws)
 
 
 def run(ctx):
@@ -188,6 +243,8 @@ def run(ctx):
     pq.close()
     if len(outs) != len(cmds):
         raise RuntimeError("pqref answered %d of %d commands" % (len(outs), len(cmds)))
+    pick = sorted(rng.sample(range(len(cmds)), min(20, len(cmds))))
+    _extract_agrees(ctx, [(cmds[i], outs[i]) for i in pick])
     for k, (case, p, known) in enumerate(meta):
         mi = R.canon_model(outs[3 * k])
         ms = R.canon_model(outs[3 * k + 1])
